@@ -35,6 +35,10 @@ pub struct Cfg {
     /// page), all others the default 4 MB: back pressure at one point of the
     /// chain.
     pub small: Option<usize>,
+    /// Deliver through the PduWriter block, as the documented receivers do
+    /// (one file per frame in a directory), instead of reading the deframer's
+    /// output stream directly.
+    pub pduw: bool,
 }
 
 /// Source handing out a fixed signal in pieces of given sizes.
@@ -83,7 +87,7 @@ impl Cfg {
     fn to_json(&self) -> Value {
         json!({"baud": self.baud, "rate": self.rate, "family": self.family, "len": self.len, "frames": self.frames,
             "between": self.between, "preamble": self.preamble, "phase": self.phase, "timing": self.timing, "mt": self.mt,
-            "lead": self.lead, "pieces": self.pieces, "small": self.small})
+            "lead": self.lead, "pieces": self.pieces, "small": self.small, "pduw": self.pduw})
     }
     fn from_json(v: &Value) -> Self {
         Self {
@@ -100,6 +104,7 @@ impl Cfg {
             lead: v["lead"].as_u64().unwrap_or(0) as usize,
             pieces: v["pieces"].as_array().map(|a| a.iter().map(|x| x.as_u64().unwrap() as usize).collect()).unwrap_or_default(),
             small: v["small"].as_u64().map(|x| x as usize),
+            pduw: v["pduw"].as_bool().unwrap_or(false),
         }
     }
 }
@@ -261,6 +266,13 @@ pub fn run_cfg(c: &Cfg) -> Result<Vec<Vec<u8>>, String> {
         let prev = add!(Descrambler::new(prev, 0x21, 0, 16));
         add!(HdlcDeframer::new(prev, 10, 1500))
     };
+    let pdu_dir = std::env::temp_dir().join(format!("verif-e2e-pdu-{}", std::process::id()));
+    let mut out = Some(out);
+    if c.pduw {
+        let _ = std::fs::remove_dir_all(&pdu_dir);
+        std::fs::create_dir_all(&pdu_dir).map_err(|e| format!("machinery: {e}"))?;
+        g.add(Box::new(PduWriter::<u8>::new(out.take().unwrap(), pdu_dir.clone())));
+    }
     let r = catch(|| g.run());
     verif::set_virtual_time(true);
     match r {
@@ -269,8 +281,22 @@ pub fn run_cfg(c: &Cfg) -> Result<Vec<Vec<u8>>, String> {
         Ok(Ok(())) => {}
     }
     let mut got = vec![];
-    while let Some((p, _)) = out.pop() {
-        got.push(p);
+    if c.pduw {
+        // Files are named by their time of arrival in microseconds.
+        let mut names: Vec<(u128, std::path::PathBuf)> = std::fs::read_dir(&pdu_dir)
+            .map_err(|e| format!("machinery: {e}"))?
+            .filter_map(|e| e.ok())
+            .filter_map(|e| e.file_name().to_str().and_then(|n| n.parse::<u128>().ok()).map(|n| (n, e.path())))
+            .collect();
+        names.sort();
+        for (_, p) in names {
+            got.push(std::fs::read(p).map_err(|e| format!("machinery: {e}"))?);
+        }
+        let _ = std::fs::remove_dir_all(&pdu_dir);
+    } else if let Some(out) = out {
+        while let Some((p, _)) = out.pop() {
+            got.push(p);
+        }
     }
     Ok(got)
 }
@@ -368,6 +394,7 @@ fn grid(thorough: bool) -> Vec<Cfg> {
                                                 lead: 0,
                                                 pieces: vec![],
                                                 small: None,
+ pduw: false,
                                             });
                                         }
                                     }
@@ -400,6 +427,7 @@ fn grid(thorough: bool) -> Vec<Cfg> {
                     lead: 0,
                     pieces: vec![],
                     small: None,
+ pduw: false,
                 });
             }
         }
@@ -427,6 +455,7 @@ fn grid(thorough: bool) -> Vec<Cfg> {
                         lead: *lead,
                         pieces: vec![],
                         small: None,
+ pduw: false,
                     });
                 }
             }
@@ -450,6 +479,30 @@ fn grid(thorough: bool) -> Vec<Cfg> {
                     lead: 0,
                     pieces,
                     small: None,
+ pduw: false,
+                });
+            }
+        }
+    }
+    // Delivery through PduWriter, as in the documented receivers.
+    for (baud, rate) in [(1200u32, 48000u32), (9600, 50000)] {
+        for frames in [3usize, 8] {
+            for mt in [false, true] {
+                v.push(Cfg {
+                    baud,
+                    rate,
+                    family: "counting".to_string(),
+                    len: 17,
+                    frames,
+                    between: 2,
+                    preamble: 20,
+                    phase: 0.0,
+                    timing: 0.5,
+                    mt,
+                    lead: 0,
+                    pieces: vec![],
+                    small: None,
+                    pduw: true,
                 });
             }
         }
@@ -473,6 +526,7 @@ fn grid(thorough: bool) -> Vec<Cfg> {
                     lead: 0,
                     pieces: vec![],
                     small: Some(k),
+ pduw: false,
                 });
             }
         }
